@@ -638,13 +638,16 @@ impl Model {
                 } else {
                     SHT_DYNSYM
                 };
-                for s in self.shdrs.iter().filter(|s| s.typ == t) {
+                // "the" symbol table of a file is its first section of that type (both
+                // parsers, and C07 holds the stream to it): that section and the string
+                // table it links to are what the query designates
+                if let Some(s) = self.shdrs.iter().find(|s| s.typ == t) {
                     v.push(*s);
                     linked(s, &mut v);
                 }
             }
             DesKind::Dynamic => {
-                for s in self.shdrs.iter().filter(|s| s.typ == SHT_DYNAMIC) {
+                if let Some(s) = self.shdrs.iter().find(|s| s.typ == SHT_DYNAMIC) {
                     v.push(*s);
                 }
             }
@@ -673,7 +676,8 @@ impl Model {
         for s in self.designated_sections(kind) {
             self.shdr_range(&s, &mut rs);
         }
-        if kind == DesKind::Dynamic {
+        if kind == DesKind::Dynamic && self.shdrs.is_empty() {
+            // the PT_DYNAMIC segment is consulted only when there are no section headers
             for p in self.phdrs.iter().filter(|p| p.typ == PT_DYNAMIC) {
                 rs.add_clipped(p.offset, p.filesz, self.len);
             }
